@@ -100,7 +100,14 @@ def run(w: World, rep: Report):
     # the inner loop is the one (nested in the signature loop) that contains the inner check; the
     # collection it iterates is the *candidate set*
     cs0 = w.handler_for('OP_CHECK_SIG')
-    inner = [n for n in cfg.nodes if n.kind == 'for' and isinstance(n.ast.iter, ast.Name)
+    def _iter_base(it):
+        if isinstance(it, ast.Name):
+            return it.id
+        if isinstance(it, ast.Call) and isinstance(it.func, ast.Name) and it.func.id == 'enumerate' and it.args and \
+                isinstance(it.args[0], ast.Name):
+            return it.args[0].id
+        return None
+    inner = [n for n in cfg.nodes if n.kind == 'for' and _iter_base(n.ast.iter) is not None
              and any(a is outer[0].ast for a in cfg.ancestors(n.ast))
              and any(isinstance(x, ast.Call) and isinstance(x.func, ast.Name) and x.func.id == cs0.name
                      for x in ast.walk(n.ast))]
@@ -108,10 +115,26 @@ def run(w: World, rep: Report):
         raise AnalysisError('OP_CHECK_MULTISIG: inner loop over the candidate keys not found')
     inner = inner[0]
     sig_el = outer[0].ast.target.id
-    key_el = inner.ast.target.id
-    cand_var = inner.ast.iter.id
+    idx_el = None
+    if isinstance(inner.ast.target, ast.Name):
+        key_el = inner.ast.target.id
+    elif isinstance(inner.ast.target, ast.Tuple) and len(inner.ast.target.elts) == 2 and \
+            all(isinstance(x, ast.Name) for x in inner.ast.target.elts) and isinstance(inner.ast.iter, ast.Call):
+        idx_el, key_el = inner.ast.target.elts[0].id, inner.ast.target.elts[1].id
+    else:
+        raise AnalysisError('OP_CHECK_MULTISIG: inner loop target not recognised')
+    cand_var = _iter_base(inner.ast.iter)
+    # a candidate list rebuilt for every signature by filtering the popped keys against a used-set
+    fcand = _filtered_candidates(cfg, outer[0], inner, cand_var, keys_var)
+    if fcand is not None:
+        space, used_var, why_f = fcand
+        init_ok = any(n.kind == 'stmt' and isinstance(n.ast, ast.Assign) and isinstance(n.ast.targets[0], ast.Name)
+                      and n.ast.targets[0].id == used_var and ast.unparse(n.ast.value).replace(' ', '') in ('set()', '[]', 'list()')
+                      and not any(a is outer[0].ast for a in cfg.ancestors(n.ast)) for n in cfg.nodes)
+        rep.check('C03.R1', f'functions.{fi.name}|candidates-start-as-all-keys', init_ok and not why_f, line=inner.line, file=REL,
+                  why='' if (init_ok and not why_f) else (why_f or f'the used-set `{used_var}` is not empty before the first signature'))
     # the candidate set starts as the popped keys
-    if cand_var != keys_var:
+    if cand_var != keys_var and fcand is None:
         d0 = [d for d in cfg.defs_reaching(cand_var, outer[0])
               if not any(a is outer[0].ast for a in cfg.ancestors(d[0].ast))]      # definitions before the loops
         starts_ok = bool(d0) and all(how == 'assign' and isinstance(pl, ast.AST) and ast.unparse(pl) in
@@ -196,13 +219,25 @@ def run(w: World, rep: Report):
             if good:
                 removal.append(n)
     used_sets = _used_set_idiom(cfg, inner, key_el)
+    space_why = ''
+    if fcand is not None:
+        space, used_var, _ = fcand
+        used_sets, space_why = _used_adds(cfg, inner, used_var, space, key_el, idx_el, cand_var, keys_var_orig)
+    elif idx_el is not None and cand_var == keys_var_orig:
+        # `for i, k in enumerate(keys): if i in used: continue ... used.add(i)`
+        for n, c in cfg.nodes_with_call(lambda c: isinstance(c.func, ast.Attribute) and c.func.attr in ('add', 'append')):
+            if c.args and ast.unparse(c.args[0]) == idx_el and any(a is inner.ast for a in cfg.ancestors(n.ast)):
+                coll = dotted(c.func.value)
+                if any(t.kind == 'test' and ast.unparse(t.ast).replace(' ', '') in (f'{idx_el}in{coll}', f'{idx_el}notin{coll}')
+                       and any(a is inner.ast for a in cfg.ancestors(t.ast)) for t in cfg.nodes):
+                    used_sets.append(n)
     # every path from the success edge back to the outer loop head passes a removal (or used-set insertion)
     consume = removal + used_sets
     ok = bool(consume) and bool(succ_true) and all(
         cfg.must_pass(s, outer[0], through_nodes=consume) or s in consume for s in succ_true)
     # and the failure edge must not consume
     rep.check('C03.R1', f'functions.{fi.name}|matched-key-consumed', ok, line=rt.line, file=REL,
-              why='' if ok else (bad_rebind or 'after a signature verifies under a key, that key stays in the candidate '
+              why='' if ok else (space_why or bad_rebind or 'after a signature verifies under a key, that key stays in the candidate '
                                  'set: two different signatures by one key (e.g. differing flag byte) would both be counted'))
     # removal while iterating needs the break (C19.R1 idiom); the confirmed insert happens on the same edge
     conf_adds = [n for n, c in cfg.nodes_with_call(lambda c: isinstance(c.func, ast.Attribute) and c.func.attr in ('add', 'append'))
@@ -291,3 +326,65 @@ def _used_set_idiom(cfg, inner, key_el):
             if guard:
                 adds.append(n)
     return adds
+
+
+def _filtered_candidates(cfg, outer, inner, cand_var, keys_var):
+    """`cand = [k for k in keys if k not in U]` / `[k for i, k in enumerate(keys) if i not in U]` assigned inside
+    the signature loop before the key loop -> (space 'key'|'index', U, why-if-malformed) or None."""
+    if cand_var == keys_var:
+        return None
+    for n in cfg.nodes:
+        if n.kind == 'stmt' and isinstance(n.ast, ast.Assign) and isinstance(n.ast.targets[0], ast.Name) and \
+                n.ast.targets[0].id == cand_var and any(a is outer.ast for a in cfg.ancestors(n.ast)) and \
+                not any(a is inner.ast for a in cfg.ancestors(n.ast)) and isinstance(n.ast.value, ast.ListComp):
+            lc = n.ast.value
+            if len(lc.generators) != 1:
+                return None
+            g = lc.generators[0]
+            if isinstance(g.target, ast.Name) and isinstance(g.iter, ast.Name) and g.iter.id == keys_var:
+                kname, iname = g.target.id, None
+            elif isinstance(g.target, ast.Tuple) and len(g.target.elts) == 2 and isinstance(g.iter, ast.Call) and \
+                    isinstance(g.iter.func, ast.Name) and g.iter.func.id == 'enumerate' and g.iter.args and \
+                    isinstance(g.iter.args[0], ast.Name) and g.iter.args[0].id == keys_var:
+                iname, kname = g.target.elts[0].id, g.target.elts[1].id
+            else:
+                return None
+            if not (isinstance(lc.elt, ast.Name) and lc.elt.id == kname):
+                return ('key', '?', 'the rebuilt candidate list does not hold the keys themselves')
+            if len(g.ifs) != 1:
+                return ('key', '?', 'the rebuilt candidate list is not filtered by exactly one `not in <used>` condition')
+            c = g.ifs[0]
+            if isinstance(c, ast.Compare) and len(c.ops) == 1 and isinstance(c.ops[0], ast.NotIn) and \
+                    isinstance(c.left, ast.Name) and isinstance(c.comparators[0], ast.Name):
+                if c.left.id == kname:
+                    return ('key', c.comparators[0].id, '')
+                if iname and c.left.id == iname:
+                    return ('index', c.comparators[0].id, '')
+            return ('key', '?', 'the filter of the rebuilt candidate list is not `x not in <used>`')
+    return None
+
+
+def _used_adds(cfg, inner, used_var, space, key_el, idx_el, cand_var, keys_var):
+    """Insertions into the used-set inside the key loop that are in the same space as the filter reads it."""
+    adds, why = [], ''
+    for n, c in cfg.nodes_with_call(lambda c: isinstance(c.func, ast.Attribute) and c.func.attr in ('add', 'append')):
+        if dotted(c.func.value) != used_var or not c.args or not any(a is inner.ast for a in cfg.ancestors(n.ast)):
+            continue
+        a = ast.unparse(c.args[0]).replace(' ', '')
+        if space == 'key':
+            if a == key_el:
+                adds.append(n)
+            else:
+                why = f'`{used_var}` is read as a set of keys but `{a}` is recorded in it'
+        else:
+            if a == f'{keys_var}.index({key_el})':
+                adds.append(n)
+            elif idx_el is not None and a == idx_el and cand_var == keys_var:
+                adds.append(n)
+            elif idx_el is not None and a == idx_el:
+                why = (f'`{used_var}` is read as positions in `{keys_var}` (the filter) but the position recorded after a match, '
+                       f'`{idx_el}`, counts along the filtered list `{cand_var}`: after the first match the wrong key is '
+                       f'marked used - one key can confirm two signatures and valid quorums can be rejected')
+            else:
+                why = f'`{used_var}` is read as positions in `{keys_var}` but `{a}` is recorded in it'
+    return adds, why
